@@ -118,11 +118,11 @@ def build_world(desc, reset=True):
         loading_unit="mmol", material_basis="mass", material_unit="g", temperature_unit="K", user="verif-2")
     iso_u2.adsorbate = pygaps.Adsorbate("verif-user-gas", store=False, **ru.user_fluid_properties(uf2))
     world["U2"] = iso_u2
-    for key, gas, kk in (("M1", "methane", 1.3), ("M2", "ethane", 4.0), ("M3", "methane", 2.0)):
-        m = pgm.get_isotherm_model("Langmuir" if key != "M3" else "Toth")
-        m.params = {"K": kk * desc["shape"]["C"] / 50.0, "n_m": desc["shape"]["nm"]}
-        if key == "M3":
-            m.params["t"] = 0.7
+    for key, gas, kk in (("M1", "methane", 1.3), ("M2", "ethane", 4.0), ("M3", "methane", 2.0), ("M4", "ethane", 0.6)):
+        m = pgm.get_isotherm_model("Langmuir" if key not in ("M3", "M4") else "Toth")
+        m.params = {"K": kk * desc["shape"]["C"] / 50.0, "n_m": desc["shape"]["nm"] * (1.0 if key != "M4" else 1.7)}
+        if key in ("M3", "M4"):
+            m.params["t"] = 0.7 if key == "M3" else 1.3
         m.pressure_range = [0.0, 10.0]
         m.loading_range = [0.0, float(m.loading(10.0))]
         world[key] = pygaps.ModelIsotherm(model=m, material=pygaps.Material("m-model"), adsorbate=gas, temperature=298.0,
@@ -153,6 +153,17 @@ def _collect_module_state():
                     out[(m.name, name)] = (val, copy.deepcopy(val))
                 except Exception:  # noqa - not copyable: leave alone
                     pass
+            # containers declared in a class body are shared by all instances of the process: module-level state too
+            if isinstance(val, type) and str(getattr(val, "__module__", "")).startswith("pygaps"):
+                for an, av in list(vars(val).items()):
+                    if an.startswith("__") or not isinstance(av, (dict, list, set)):
+                        continue
+                    if any(av is o for (_, _), (o, _) in out.items()):
+                        continue
+                    try:
+                        out[(m.name, f"{name}.{an}")] = (av, copy.deepcopy(av))
+                    except Exception:  # noqa
+                        pass
     return out
 
 
@@ -340,6 +351,9 @@ def run_op(world, op):
         T = 64.0 + 60.0 * op["q"]
         return [a.saturation_pressure(T), a.liquid_density(T), a.gas_molar_density(T), a.surface_tension(T),
                 a.enthalpy_vaporisation(T), a.molar_mass()]
+    if name == "model_spreading":
+        # two isotherms of the SAME model class (other parameters) asked at pressures from a small common set
+        return [world[op["which"]].spreading_pressure_at(op["p"]), world[op["which"]].loading_at(op["p"])]
     if name == "model_accessors":
         m = world["M1"]
         return [m.loading_at(op["p1"], pressure_unit="kPa", pressure_mode="absolute"), m.pressure_at(op["q"] * 0.5),
@@ -481,14 +495,16 @@ def _op(focus=None):
         "iast_point_mixed": st.builds(lambda a, b: {"op": "iast_point_mixed", "p1": round(a, 4), "p2": round(b, 4)},
                                       st.floats(0.05, 1), st.floats(0.01, 0.5)),
         "adsorbate_props": st.builds(lambda i, qq: {"op": "adsorbate_props", "iso": i, "q": qq}, iso, q),
+        "model_spreading": st.builds(lambda w, p: {"op": "model_spreading", "which": w, "p": p},
+                                     st.sampled_from(["M3", "M4"]), st.sampled_from([0.5, 1.0, 2.0])),
         "model_accessors": st.builds(lambda a, b, qq: {"op": "model_accessors", "p1": round(a, 4), "p2": round(b, 4), "q": qq},
                                      st.floats(0.05, 3), st.floats(0.05, 3), q),
     }
     if focus == "interp":
-        weights = ["loading_at"] * 4 + ["pressure_at"] * 3 + ["spreading_pressure_at"] * 3 + ["loading_at_units", "pressure", "to_json"]
+        weights = ["loading_at"] * 4 + ["pressure_at"] * 3 + ["spreading_pressure_at"] * 3 + ["loading_at_units", "pressure", "to_json", "model_spreading", "model_spreading"]
         return st.sampled_from(weights).flatmap(lambda k: cat[k])
     if focus == "caches":
-        weights = (["t_plot"] * 6 + ["psd_mesoporous"] * 4 + ["adsorbate_props"] * 3 + ["psd_micro_curved"] * 4 + ["psd_dft"] * 4 + ["model_iso"] * 2 + ["model_overrange"] * 2 + ["area_BET", "whittaker",
+        weights = (["t_plot"] * 6 + ["psd_mesoporous"] * 4 + ["adsorbate_props"] * 3 + ["psd_micro_curved"] * 4 + ["psd_dft"] * 4 + ["model_iso"] * 2 + ["model_overrange"] * 2 + ["model_spreading"] * 3 + ["area_BET", "whittaker",
                    "isosteric_enthalpy", "alpha_s", "loading", "pressure", "iast_point_mixed", "model_accessors"])
         return st.sampled_from(weights).flatmap(lambda k: cat[k])
     weights = (["loading_at"] * 5 + ["pressure_at"] * 4 + ["spreading_pressure_at"] * 5 + ["pressure", "loading"] * 2 +
